@@ -267,8 +267,11 @@ def finish(mod, tier, seed, total, wall, njobs):
         wall_s=round(wall, 2),
         violations=len(new),
     )
-    os.makedirs(os.path.join(VERIF, "evidence"), exist_ok=True)
-    evpath = os.path.join(VERIF, "evidence", f"{pid}.json")
+    # (VERIF_EVIDENCE_DIR: used by tools/seeded_test.sh so that runs against a deliberately broken tree never touch the
+    # committed evidence of the unchanged tree)
+    evdir = os.environ.get("VERIF_EVIDENCE_DIR") or os.path.join(VERIF, "evidence")
+    os.makedirs(evdir, exist_ok=True)
+    evpath = os.path.join(evdir, f"{pid}.json")
     from vlib import schema
 
     err = schema.validate(ev, "/root/.vp/EVIDENCE.schema.json")
